@@ -507,5 +507,9 @@ def run(ctx):
         clause3_responses(ctx, P)
         clause5_id(ctx, P)
         clause5b_number_rendering(ctx, P)
+        from .c04 import clause9b_utf8_boundaries      # ids written with escapes are echoed as the same text
+        clause9b_utf8_boundaries(ctx, P)
+        from .c04 import clause9c_hex_digits
+        clause9c_hex_digits(ctx, P)
         clause6_batch(ctx, P)
         clause7_one_of(ctx, P)
